@@ -163,6 +163,8 @@ type DResult struct {
 	Ps         []DPResult `json:"ps,omitempty"`
 	Ids        []string   `json:"ids,omitempty"`
 	Types      []int      `json:"types,omitempty"`
+	IdTypes    []int      `json:"id_types,omitempty"`
+	Text       string     `json:"text,omitempty"`
 	Calls      int        `json:"calls,omitempty"`
 	Mismatches []string   `json:"mismatches,omitempty"`
 	MaxOverlap int        `json:"max_overlap,omitempty"`
